@@ -494,7 +494,8 @@ def feCheck (orc : Oracle) : M Bool := do
 /-- `libvm_execute_build_in` -/
 def buildIn (id : Nat) (orc : Oracle) : M Unit := do
   let sp ← getSp
-  let top ← rdAddr sp
+  -- every build-in but `read` (12, no operand) reads its operand address from `stack[sp]`
+  let top ← (if id == 12 then pure 0 else rdAddr sp : M Nat)
   let finish (a : Nat) : M Unit := do
     if (← feCheck orc) then pure () else wrSlot (← getSp) (.addr a)
   let math1 (f : Float32 → Float32) : M Unit := do
